@@ -200,5 +200,14 @@ func GenC18Calibrate(seed uint64, tier string) *Plan {
 	if len(p.Tasks) > 3 {
 		p.Tasks = p.Tasks[:3]
 	}
+	// read-only requests: the probe is touched on every request, and a
+	// calibration run should not depend on how the library handles writes
+	for ti := range p.Tasks {
+		id := p.Tasks[ti].ID
+		p.Tasks[ti].Steps = nil
+		for k := 0; k < 4; k++ {
+			p.Tasks[ti].Steps = append(p.Tasks[ti].Steps, Step{Method: []string{"OPTIONS", "PROPFIND", "GET", "HEAD"}[k], Target: fmt.Sprintf("/t%d/", id)})
+		}
+	}
 	return p
 }
